@@ -522,6 +522,8 @@ psgstrf_WorkInit(int_t n, int_t panel_size, int_t **iworkptr, float **dworkptr)
     } /* else */
     if ( ! *dworkptr ) {
 	printf("malloc fails for local dworkptr[] ... dsize " IFMT "\n", dsize);
+	/* the caller gives up: do not leave the integer work array behind */
+	if ( whichspace == SYSTEM ) SUPERLU_FREE(*iworkptr);
 	return (isize + dsize + n);
     }
 	
